@@ -45,6 +45,15 @@ def main():
         g = klepto.lru_cache(maxsize=3, keymap=M.make_keymap(job['keymap']))(M.f1)
         for x in noise['other_first']:
             g(dec(x))
+    if noise.get('sibling_first'):
+        # a function made from the same code object as the one under test, with other defaults, is
+        # memoized and called first in this session (factory / lambda-in-a-loop siblings)
+        sib = klepto.inf_cache(keymap=M.make_keymap(job['keymap']))(M.sibling_of(M.FUNCS[job['fn']][0]))
+        for op in job['calls'][:2]:
+            try:
+                sib(*[dec(v) for v in op['a']], **dict((n, dec(v)) for n, v in op['kw']))
+            except TypeError:
+                pass
     mod = klepto.safe if job.get('module') == 'safe' else klepto
     cache = B.make(job['backend'], job['root'], cached=True)
     kwds = {}
